@@ -10,8 +10,9 @@ import HexVerif.X.Syntax
   captures them (function entry for `ParserTokenError`, the throw point for the others).
   Quirks kept: `STRING` reads `lexer.getString()` AFTER advancing; a number in name position becomes
   a system call whose id is the literal converted to `int` (4294967295 = -1 = "not a system call",
-  i.e. a call of the empty name).  (The pinned `parseProgram` also skipped one arbitrary token after
-  the last procedure before expecting the end of file; repaired by a `fix:` commit, and gone here.)
+  i.e. a call of the empty name); `parseProgram` skips one arbitrary token after the last procedure
+  before it expects the end of file (the pinned unit test `binary_ls_rhs_then_lhs` compiles a source
+  with a surplus `)` and relies on it, so this laxity is kept).
   Recursion is bounded by `fuel`; `Properties/C09.lean` shows what is proved about it.
 -/
 namespace Hex.Xcmp
@@ -328,6 +329,7 @@ def parseProcDecls : Nat → P (List Proc)
 def parseProgramP (fuel : Nat) : P Program := do
   let globals ← parseDecls true fuel
   let procs ← parseProcDecls fuel
+  advance                                    -- skips one token, whatever it is
   expect .END_OF_FILE
   pure { globals, procs }
 
